@@ -1148,4 +1148,113 @@ theorem readonly_core (cfg : Cfg) (hnn : cfg.nn = "nullable" ∨ cfg.nn = "x-nul
     cases h : Json.lookup n members <;> simp_all
 
 
+/-! ### the per-location object schema -/
+
+/-- the dict `parameters_to_json_schema` returns -/
+def paramsK (props : Kvs) (req : List String) : Kvs :=
+  [("properties", .obj props), ("additionalProperties", .bool false), ("type", .str "object"),
+   ("required", .arr (req.map Json.str))]
+
+theorem paramsK_lookup (props : Kvs) (req : List String) (k : String)
+    (h1 : k ≠ "properties") (h2 : k ≠ "additionalProperties") (h3 : k ≠ "type") (h4 : k ≠ "required") :
+    Json.lookup k (paramsK props req) = none := by
+  simp [paramsK, Json.lookup, h1, h2, h3, h4]
+
+theorem filterMap_strs (req : List String) : (req.map Json.str).filterMap Json.str? = req := by
+  induction req with
+  | nil => rfl
+  | cons a as ih => simp only [List.map_cons, List.filterMap_cons, Json.str?, ih]
+
+theorem requiredOf_paramsK (props : Kvs) (req : List String) : requiredOf (paramsK props req) = req := by
+  have : Json.lookup "required" (paramsK props req) = some (.arr (req.map Json.str)) := by
+    simp [paramsK, Json.lookup]
+  simp only [requiredOf, this, filterMap_strs]
+
+theorem propsOf_paramsK (props : Kvs) (req : List String) : propsOf (paramsK props req) = props := by
+  have : Json.lookup "properties" (paramsK props req) = some (.obj props) := by simp [paramsK, Json.lookup]
+  simp only [propsOf, this]
+
+theorem objectOk_paramsK (env : Env) (rec : Json → Json → Bool) (props : Kvs) (req : List String) (members : Kvs)
+    (hrec : ∀ x, rec (.bool false) x = false) :
+    objectOk (envPlain env) rec (paramsK props req) (.obj members) =
+      (req.all (fun k => (Json.lookup k members).isSome) &&
+       members.all (fun (k, x) => match Json.lookup k props with | some s => rec s x | none => false)) := by
+  have hap : Json.lookup "additionalProperties" (paramsK props req) = some (.bool false) := by simp [paramsK, Json.lookup]
+  have hpp : patternPropsOf (paramsK props req) = [] := by
+    simp only [patternPropsOf, paramsK_lookup props req "patternProperties" (by decide) (by decide) (by decide) (by decide)]
+  have hmin : natKw (paramsK props req) "minProperties" = none := by
+    simp only [natKw, paramsK_lookup props req "minProperties" (by decide) (by decide) (by decide) (by decide)]
+  have hmax : natKw (paramsK props req) "maxProperties" = none := by
+    simp only [natKw, paramsK_lookup props req "maxProperties" (by decide) (by decide) (by decide) (by decide)]
+  simp only [objectOk, lenBoundsOk, hmin, hmax, requiredOf_paramsK, propsOf_paramsK, hpp, hap, forbiddenProp, envPlain,
+    Bool.true_and, List.all_nil, List.any_nil, Bool.or_false, Bool.and_true, Bool.not_false, hrec]
+  rw [Bool.eq_iff_iff]
+  simp only [Bool.and_eq_true, List.all_eq_true, Bool.or_eq_true]
+  constructor
+  · rintro ⟨⟨⟨h1, h2⟩, _⟩, h4⟩
+    refine ⟨fun k hk => ?_, fun kx hm => ?_⟩
+    · rcases h1 k hk with h | h
+      · exact h
+      · cases hl : Json.lookup k props <;> simp [hl] at h
+    · have a := h2 kx hm
+      have b := h4 kx hm
+      cases hl : Json.lookup kx.1 props with
+      | none => simp [hl] at b
+      | some s => simpa [hl] using a
+  · rintro ⟨h1, h2⟩
+    refine ⟨⟨⟨fun k hk => .inl (h1 k hk), fun kx hm => ?_⟩, fun _ _ => trivial⟩, fun kx hm => ?_⟩
+    · have a := h2 kx hm
+      cases hl : Json.lookup kx.1 props with
+      | none => simp [hl] at a
+      | some s => simpa [hl] using a
+    · have a := h2 kx hm
+      cases hl : Json.lookup kx.1 props with
+      | none => simp [hl] at a
+      | some s => rfl
+
+
+/-- the object schema `parameters_to_json_schema` builds accepts exactly the objects that contain every required name,
+    only declared names, and a valid value for each -/
+theorem params_object (env : Env) (props : Kvs) (req : List String) (g : Nat) (v : Json) :
+    validF (g + 2) (envPlain env) (.obj (paramsK props req)) v = true ↔
+    ∃ members, v = .obj members ∧ (∀ k ∈ req, (Json.lookup k members).isSome = true) ∧
+      ∀ k x, (k, x) ∈ members → ∃ s, Json.lookup k props = some s ∧ validF (g + 1) (envPlain env) s x = true := by
+  have hty : Json.lookup "type" (paramsK props req) = some (.str "object") := by simp [paramsK, Json.lookup]
+  have hn := fun k h1 h2 h3 h4 => paramsK_lookup props req k h1 h2 h3 h4
+  rw [validF_obj _ _ _ _ (hn "$ref" (by decide) (by decide) (by decide) (by decide)), isNullable_plain]
+  simp only [Bool.false_and, Bool.false_eq_true, if_false]
+  have hcomb : combinatorsOk (validF (g + 1) (envPlain env)) (paramsK props req) v = true := by
+    simp only [combinatorsOk, hn "allOf" (by decide) (by decide) (by decide) (by decide),
+      hn "anyOf" (by decide) (by decide) (by decide) (by decide), hn "oneOf" (by decide) (by decide) (by decide) (by decide),
+      hn "not" (by decide) (by decide) (by decide) (by decide), Bool.and_self]
+  cases v with
+  | obj members =>
+    have hrest : (typeOk (paramsK props req) (.obj members) && enumOk (paramsK props req) (.obj members) &&
+        constOk (paramsK props req) (.obj members) && numberOk (paramsK props req) (.obj members) &&
+        stringOk (envPlain env) (paramsK props req) (.obj members) && formatOk (envPlain env) (paramsK props req) (.obj members) &&
+        arrayOk (validF (g + 1) (envPlain env)) (paramsK props req) (.obj members)) = true := by
+      simp only [typeOk, hty, typeNameOk, enumOk, constOk, numberOk, stringOk, formatOk, arrayOk,
+        hn "enum" (by decide) (by decide) (by decide) (by decide), hn "const" (by decide) (by decide) (by decide) (by decide),
+        hn "format" (by decide) (by decide) (by decide) (by decide)]
+      decide
+    simp only [keywordsOk, hrest, hcomb, Bool.true_and, Bool.and_true]
+    rw [objectOk_paramsK env _ props req members (fun x => by simp [validF])]
+    simp only [Bool.and_eq_true, List.all_eq_true]
+    constructor
+    · rintro ⟨h1, h2⟩
+      refine ⟨members, rfl, h1, fun k x hm => ?_⟩
+      have a := h2 (k, x) hm
+      cases hl : Json.lookup k props with
+      | none => simp [hl] at a
+      | some s => exact ⟨s, rfl, by simpa [hl] using a⟩
+    · rintro ⟨m, hm, h1, h2⟩
+      cases hm
+      refine ⟨h1, fun kx hmem => ?_⟩
+      obtain ⟨s, hs, hv⟩ := h2 kx.1 kx.2 hmem
+      simp only [hs]; exact hv
+  | _ =>
+    simp only [keywordsOk, typeOk, hty, typeNameOk]
+    simp
+
+
 end SV.Proofs.C01
